@@ -35,11 +35,11 @@ TIERS = {
     'quick': {'shards': 14, 'random': 4200, 'timeout': 900, 'min_cases': 2500,
               'require_branches': ['reader:svg2paths2', 'reader:Document', 'reader:SaxDocument', 'attr:special-characters',
                                    'attr:non-ascii', 'file:nested-new-directory', 'history:add_path-nested-group',
-                                   'history:reload', 'svg-attributes', 'wsvg:same-dictionaries-twice']},
+                                   'history:reload', 'svg-attributes', 'wsvg:same-dictionaries-twice', 'history:add_path-attribs-with-d', 'history:sax-save-reload-with-transforms']},
     'thorough': {'shards': 14, 'random': 300000, 'timeout': 3400, 'min_cases': 100000,
                  'require_branches': ['reader:svg2paths2', 'reader:Document', 'reader:SaxDocument',
                                       'attr:special-characters', 'attr:non-ascii', 'file:nested-new-directory',
-                                      'history:add_path-nested-group', 'history:reload', 'svg-attributes', 'wsvg:same-dictionaries-twice']},
+                                      'history:add_path-nested-group', 'history:reload', 'svg-attributes', 'wsvg:same-dictionaries-twice', 'history:add_path-attribs-with-d', 'history:sax-save-reload-with-transforms']},
 }
 CASE_TIMEOUT = 60
 SVGNS = 'http://www.w3.org/2000/svg'
@@ -404,7 +404,10 @@ def cases(ctx):
                 if not _ok(sp):
                     continue
                 if k < 0.35:
-                    ops.append(['add_path', sp, None, rng.choice([None, {'stroke': 'red', 'id': 'h%d' % len(ops)}])])
+                    ops.append(['add_path', sp, None, rng.choice([
+                        None, {'stroke': 'red', 'id': 'h%d' % len(ops)},
+                        # an attribute dictionary as svg2paths returns it: it carries the 'd' of ANOTHER path
+                        {'d': 'M 1,2 L 30,40 L 5,60', 'fill': 'none', 'id': 'h%d' % len(ops)}])])
                 elif k < 0.6:
                     ops.append(['add_path', sp, [rng.choice(['A', 'B']), rng.choice(['x', 'y'])][:rng.randint(1, 2)], None])
                 elif k < 0.8:
@@ -459,6 +462,8 @@ def run_case(ctx, case):
                 p = gen.path(op[1])
                 if op[2]:
                     ctx.branch('history:add_path-nested-group')
+                if op[3] and 'd' in op[3]:
+                    ctx.branch('history:add_path-attribs-with-d')
                 doc.add_path(p, attribs=op[3], group=list(op[2]) if op[2] else None)
             elif op[0] == 'add_group':
                 g = doc.add_group(dict(op[1]))
@@ -467,6 +472,35 @@ def run_case(ctx, case):
                 doc.paths()
         out = os.path.join(work, 'saved.svg')
         doc.save(out)
+        # the other writer: a file read by SaxDocument and saved again holds the same (flattened) paths
+        try:
+            sd = SaxDocument(out)
+            before = sd.flatten_all_paths()
+            out2 = os.path.join(work, 'resaved.svg')
+            sd.save(out2)
+            after = SaxDocument(out2).flatten_all_paths()
+        except Exception as e:   # noqa
+            ctx.verdict()
+            ctx.violation('SaxDocument.save/raises/%s' % type(e).__name__, 'SaxDocument load -> save -> reload raised: %s' % str(e)[:100])
+            return
+        ctx.verdict()
+        ctx.branch('history:sax-save-reload')
+        if any(e.get('transform') for e in doc.root.iter()):
+            ctx.branch('history:sax-save-reload-with-transforms')
+        if len(before) != len(after):
+            ctx.violation('SaxDocument.save/count', 'SaxDocument load -> save -> reload: %d paths became %d' % (len(before), len(after)))
+            return
+        for i, (a, b) in enumerate(zip(before, after)):
+            if len(a) != len(b) or any(type(x) is not type(y) for x, y in zip(a, b)):
+                ctx.violation('SaxDocument.save/segments', 'SaxDocument load -> save -> reload changed the segments of path %d' % i)
+                return
+            for x, y in zip(a, b):
+                for u, v in ((x.start, y.start), (x.end, y.end)) + (tuple(zip(x.bpoints(), y.bpoints())) if hasattr(x, 'bpoints') and type(x).__name__ != 'Arc' else ()):
+                    if abs(complex(u) - complex(v)) > 1e-9 * (1 + abs(complex(u))):
+                        ctx.violation('SaxDocument.save/geometry',
+                                      'SaxDocument load -> save -> reload moved a point of path %d by %.3g' % (i, abs(complex(u) - complex(v))),
+                                      {'before': repr(u), 'after': repr(v)})
+                        return
     finally:
         import shutil
         shutil.rmtree(work, ignore_errors=True)
